@@ -56,6 +56,14 @@ class RandRecorder:
         np.random.rand = self.orig
 
 
+def err_class(ex):
+    for cls, name in ((IndexError, "EIndex"), (KeyError, "EKey"), (ZeroDivisionError, "EDiv0"), (ValueError, "EValue"),
+                      (TypeError, "EType"), (RecursionError, "ERecursion"), (OSError, "EIO")):
+        if isinstance(ex, cls):
+            return name
+    return "EStop"
+
+
 def run_sequence(spec, steps):
     """One map object, several calls.  spec: dict(n_ref, bonds, ref (n,3), tgt (m,3), s).  Builds
     ExchangeMap(ref_object, tgt_object, s) and performs the calls in `steps`, each a dict with
@@ -75,8 +83,8 @@ def run_sequence(spec, steps):
     with RandRecorder() as rec, np.errstate(all="ignore"):
         try:
             m = ExchangeMap(ref, tgt, spec["s"])
-        except IndexError:
-            return {"err": "EIndex", "bondsets": bondsets}
+        except Exception as ex:          # error CLASS only (IndexError <-> Err EIndex in the model)
+            return {"err": err_class(ex), "bondsets": bondsets}
         db = list(rec.calls)
         calls = []
         for st in steps:
@@ -95,7 +103,10 @@ def run_sequence(spec, steps):
                 arg = ref
             passed = np.array(arg.atoms_positions, dtype=float)
             n0 = len(rec.calls)
-            out = m(arg)
+            try:
+                out = m(arg)
+            except Exception as ex:
+                return {"err": err_class(ex), "bondsets": bondsets}
             calls.append({"how": st["how"], "pos": passed, "out": np.array(out.atoms_positions, dtype=float),
                           "da": rec.calls[n0:]})
     return {"eq": m.equivalences, "bondsets": bondsets, "db": db, "calls": calls, "map": m,
